@@ -365,8 +365,19 @@ impl Cx {
                 }
             }
             Expr::Struct(s) => {
-                if s.rest.is_some() {
-                    return Err("unsupported: struct update syntax".into());
+                if let Some(rest) = &s.rest {
+                    // (added for C20) `T { f: v, ..rest }` ↦ `{ rest with f := v }`
+                    let rest = self.v(rest)?;
+                    let mut fields = vec![];
+                    for f in &s.fields {
+                        let name = f.member.to_token_stream().to_string();
+                        fields.push(format!(
+                            "{} := {}",
+                            lean_ident(&name),
+                            self.v(&f.expr)?
+                        ));
+                    }
+                    return Ok(format!("{{ {rest} with {} }}", fields.join(", ")));
                 }
                 let mut fields = vec![];
                 for f in &s.fields {
@@ -382,6 +393,28 @@ impl Cx {
             Expr::If(_) | Expr::Match(_) | Expr::Block(_) | Expr::Macro(_) => {
                 format!("(← {})", self.m(e)?)
             }
+            // (added for C20) `xs[i]` ↦ `(← RIndex.index xs i)` (out of range panics);
+            // `xs[a..b]` ↦ `(← RIndex.slice xs a b)` (start > end or end > len panics)
+            Expr::Index(ix) => {
+                let base = self.v(&ix.expr)?;
+                match &*ix.index {
+                    Expr::Range(r) => {
+                        if !matches!(r.limits, syn::RangeLimits::HalfOpen(_)) {
+                            return Err("unsupported: inclusive range index".into());
+                        }
+                        let a = match &r.start {
+                            Some(a) => self.v(a)?,
+                            None => "0".into(),
+                        };
+                        let b = match &r.end {
+                            Some(b) => self.v(b)?,
+                            None => format!("(Vec.len {base})"),
+                        };
+                        format!("(← RIndex.slice {base} {a} {b})")
+                    }
+                    idx => format!("(← RIndex.index {base} {})", self.v(idx)?),
+                }
+            }
             // (added for C19) `[a, b, c]` ↦ a Lean list literal
             Expr::Array(a) => {
                 let xs: Result<Vec<_>, _> =
@@ -395,6 +428,14 @@ impl Cx {
                 for p in &c.inputs {
                     match p {
                         Pat::Ident(_) | Pat::Wild(_) => ps.push(self.pat(p)?),
+                        // (added for C20) `|(a, b)| …` ↦ `fun (a, b) => …`
+                        Pat::Tuple(t)
+                            if t.elems.iter().all(|x| {
+                                matches!(x, Pat::Ident(_) | Pat::Wild(_))
+                            }) =>
+                        {
+                            ps.push(self.pat(p)?)
+                        }
                         other => {
                             return Err(format!(
                                 "unsupported closure parameter: {}",
@@ -627,6 +668,27 @@ impl Cx {
                     .unwrap_or_default();
                 if self.panic_macros.contains(&name) {
                     "Res.panic".into()
+                } else if name == "assert" || name == "assert_eq" || name == "assert_ne" {
+                    // (added for C20) `assert!(c, …)` ↦ `if c then rest else panic`
+                    use syn::punctuated::Punctuated;
+                    let args = mac
+                        .mac
+                        .parse_body_with(
+                            Punctuated::<Expr, syn::Token![,]>::parse_terminated,
+                        )
+                        .map_err(|e| format!("cannot parse {name}! arguments: {e}"))?;
+                    let args: Vec<&Expr> = args.iter().collect();
+                    let cond = match (name.as_str(), args.as_slice()) {
+                        ("assert", [c, ..]) => self.v(c)?,
+                        ("assert_eq", [a, b, ..]) => {
+                            format!("(← REq.eq {} {})", self.v(a)?, self.v(b)?)
+                        }
+                        ("assert_ne", [a, b, ..]) => {
+                            format!("(!(← REq.eq {} {}))", self.v(a)?, self.v(b)?)
+                        }
+                        _ => return Err(format!("{name}!: too few arguments")),
+                    };
+                    format!("(do\n if {cond} then {} else Res.panic)", rest_s(self)?)
                 } else if name == "trace" || name == "debug" || name == "log" {
                     rest_s(self)?
                 } else {
